@@ -799,8 +799,12 @@ class Extractor(object):
     """Run over one FunctionDef; result: .events (ordered), .env_at_exit, .params"""
 
     def __init__(self, func_node, const_resolver=None, inliner=None, parent=None, init_env=None, depth=0, grename=None,
-                 self_consts=None, attr_renames=None):
+                 self_consts=None, attr_renames=None, gspell=None, sigs=None):
+        # f(callee term) -> names of the callee's positional parameters when the callee is one of the package's own functions
+        self.sigs = sigs if sigs is not None else (parent.sigs if parent is not None else None)
         self.grename = grename      # spelling of module-level names of a body inlined from another module
+        # pinned spelling of a module-level name of the analysed function's module, whatever its import style (known_imports)
+        self.gspell = gspell if gspell is not None else (parent.gspell if parent is not None else None)
         # {new attribute name: pinned name} for back-pointers a refactoring renamed consistently
         self.attr_renames = attr_renames if attr_renames is not None else (parent.attr_renames if parent is not None else None)
         # (name of the analysed method's self, lookup of class-level constants seen through it)
@@ -1023,11 +1027,14 @@ class Extractor(object):
             gname = self.grename(node.id) if self.grename is not None else node.id
             if self.attr_renames and ("<global>" + gname) in self.attr_renames:
                 gname = self.attr_renames["<global>" + gname]        # a known private function under a new name
+            if self.gspell is not None:
+                gname = self.gspell(gname)
             return ("global", gname)
         if isinstance(node, ast.Attribute):
             base = E(node.value)
             if base[0] == "global":
-                return ("global", base[1] + "." + node.attr)
+                gname = base[1] + "." + node.attr
+                return ("global", self.gspell(gname) if self.gspell is not None else gname)
             if self.attr_renames and node.attr in self.attr_renames:
                 return ("attr", base, self.attr_renames[node.attr])
             if base[0] == "obj" and isinstance(node.ctx, ast.Load):
@@ -1080,6 +1087,14 @@ class Extractor(object):
                         kws.extend(spliced)       # f(**{"a": 1}) / f(**OPTIONS) with a constant table is f(a=1)
                         continue
                 kws.append((k.arg or "**", E(k.value)))
+            if kws and self.sigs is not None and not any(a[0] == "starred" for a in args) and not any(k_ == "**" for k_, _ in kws):
+                # arguments of the package's own functions in one spelling: by position where the signature allows it
+                params = self.sigs(func)
+                if params:
+                    given = dict(kws)
+                    while len(args) < len(params) and params[len(args)] in given:
+                        args.append(given.pop(params[len(args)]))
+                    kws = [(k_, v_) for k_, v_ in kws if k_ in given]
             kws = tuple(kws)
             if func[0] == "lambda" and not args and not kws and func[1].startswith("lambda:"):
                 try:
@@ -1143,7 +1158,13 @@ class Extractor(object):
         if isinstance(node, ast.Dict):
             return ("dict", tuple((E(k) if k is not None else ("const", "**"), E(v)) for k, v in zip(node.keys, node.values)))
         if isinstance(node, ast.IfExp):
-            return ("ifexp", E(node.test), E(node.body), E(node.orelse))
+            test = E(node.test)
+            if bound:
+                return ("ifexp", test, E(node.body), E(node.orelse))
+            # what an alternative calls happens only when that alternative is chosen
+            bt = bool_form(test)
+            return ("ifexp", test, self.expr(node.body, env, guards + ((bt, True),), loops, bound),
+                    self.expr(node.orelse, env, guards + ((bt, False),), loops, bound))
         if isinstance(node, (ast.ListComp, ast.SetComp, ast.GeneratorExp, ast.DictComp)):
             # bound variables are renamed positionally ($0, $1 ..: one per generator, the element drawn), so that the spelling
             # of comprehension variables does not matter; tuple targets become components of the element
@@ -1580,6 +1601,23 @@ class Extractor(object):
     def stmt(self, s, env, guards, loops):
         """-> (falls_through, env_after, guards_added_for_the_rest_of_the_block)"""
         E = lambda n: self.expr(n, env, guards, loops)
+        if isinstance(s, ast.If) and len(s.body) == 1 and len(s.orelse) == 1 and isinstance(s.body[0], ast.Assign) \
+                and isinstance(s.orelse[0], ast.Assign) and len(s.body[0].targets) == 1 and len(s.orelse[0].targets) == 1 \
+                and isinstance(s.body[0].targets[0], ast.Name) and isinstance(s.orelse[0].targets[0], ast.Name) \
+                and s.body[0].targets[0].id == s.orelse[0].targets[0].id:
+            # ``if c: x = a / else: x = b`` on a local name is ``x = a if c else b``
+            s = ast.copy_location(ast.Assign(targets=[s.body[0].targets[0]], type_comment=None, value=ast.copy_location(
+                ast.IfExp(test=s.test, body=s.body[0].value, orelse=s.orelse[0].value), s)), s)
+        if isinstance(s, ast.If) and not s.orelse and len(s.body) == 1 and isinstance(s.body[0], ast.If) and not s.body[0].orelse:
+            # ``if a: if b: body`` is ``if a and b: body``
+            vals = []
+            inner = s
+            while isinstance(inner, ast.If) and not inner.orelse and len(inner.body) == 1 and isinstance(inner.body[0], ast.If) \
+                    and not inner.body[0].orelse:
+                vals.extend(inner.test.values if isinstance(inner.test, ast.BoolOp) and isinstance(inner.test.op, ast.And) else [inner.test])
+                inner = inner.body[0]
+            vals.extend(inner.test.values if isinstance(inner.test, ast.BoolOp) and isinstance(inner.test.op, ast.And) else [inner.test])
+            s = ast.copy_location(ast.If(test=ast.copy_location(ast.BoolOp(op=ast.And(), values=vals), s.test), body=inner.body, orelse=[]), s)
         if isinstance(s, ast.Expr):
             E(s.value)
             return True, env, ()
@@ -1658,13 +1696,32 @@ class Extractor(object):
             pg = self._drain(guards)
             guards = guards + pg
             ft_a, env_a = self.block(s.body, env, guards + ((test, True),), loops)
+            # conditions a branch picked up on the way (the negations of its own early exits): they hold for what follows too
+            ga = tuple(self._last_block_guards[len(guards) + 1:]) if ft_a else ()
             ft_b, env_b = self.block(s.orelse, env, guards + ((test, False),), loops)
+            gb = tuple(self._last_block_guards[len(guards) + 1:]) if ft_b and s.orelse else ()
+
+            def left_by(cond_t, cond_pol, gs):
+                """the rest of the block is not reached when the branch was taken and one of its exits fired: not (<branch> and
+                not (<all of gs>))"""
+                items = tuple(g[0] if not g[1] else ("unary", "not", g[0]) for g in gs)      # negations of gs
+                fired = items[0] if len(items) == 1 else ("boolop", "or", items)
+                branch = cond_t if cond_pol else ("unary", "not", cond_t)
+                parts = ()
+                for x in (branch, fired):
+                    parts += x[2] if x[0] == "boolop" and x[1] == "and" else (x,)
+                return (("boolop", "and", parts), False)
             if ft_a and ft_b:
-                return True, self.merge_gated(test, env_a, env_b), pg
+                extra = ()
+                if ga:
+                    extra += (left_by(test, True, ga),)
+                if gb:
+                    extra += (left_by(test, False, gb),)
+                return True, self.merge_gated(test, env_a, env_b), pg + extra
             if ft_a:
-                return True, env_a, pg + ((test, True),)
+                return True, env_a, pg + ((test, True),) + ga
             if ft_b:
-                return True, env_b, pg + ((test, False),)
+                return True, env_b, pg + ((test, False),) + gb
             return False, None, ()
         if isinstance(s, ast.For) and not s.orelse and self._jumps_of(s.body) and not self._breaks_of(s.body):
             # a loop whose only jumps are ``if c: continue`` guard clauses at the top level of its body: the same loop with the rest
@@ -1851,8 +1908,9 @@ class Extractor(object):
         return True, env, ()
 
 
-def extract(func_node, inliner=None, const_resolver=None, self_consts=None, attr_renames=None):
-    return Extractor(func_node, inliner=inliner, const_resolver=const_resolver, self_consts=self_consts, attr_renames=attr_renames)
+def extract(func_node, inliner=None, const_resolver=None, self_consts=None, attr_renames=None, gspell=None, sigs=None):
+    return Extractor(func_node, inliner=inliner, const_resolver=const_resolver, self_consts=self_consts, attr_renames=attr_renames,
+                     gspell=gspell, sigs=sigs)
 
 
 # ---- guard helpers -------------------------------------------------------------------------------------
